@@ -218,8 +218,36 @@ def tight_key_batches(seed, tier):
                 if not (w and w[-1]["ev"] == "disconnect"):
                     w.append({"ev": "disconnect"})
                 walks.append(w)
-            batches.append({"cfg": cfg, "cfgmode": "literal", "sub": "", "walks": walks, "outcap": cap, "slow_us": 40, "prefill": True})
+            # cap 2: the device logs, as the application's devices do (the harness drains the log channel)
+            batches.append({"cfg": cfg, "cfgmode": "literal", "sub": "", "walks": walks, "outcap": cap, "slow_us": 40, "prefill": True,
+                            "logs": cap == 2})
     return batches
+
+
+def logging_key_batches(seed, tier):
+    """Invented keyboards (random_cfg_keys) on devices that log, as the application's do (every other driver creates its
+    devices with logging off, as the repository's tests do)."""
+    bs = random_cfg_keys(seed + 1000, tier)
+    bs = bs[:6] if tier == "quick" else bs[:40]
+    for b in bs:
+        b["logs"] = True
+        b["walks"] = b["walks"][:4]
+    return bs
+
+
+def tight_exit_batches(seed, tier):
+    """The exit sequence while the termination-signal channel is full: the application hands ONE one-slot channel to all
+    devices (and to os/signal); a signal raised by another keyboard and not yet read sits in it.  The harness fills the
+    channel with a marker signal before every event and reads it only while it waits to hand over the next event: the
+    signal of a completed sequence still has to arrive, and the completing press is still swallowed."""
+    bs = random_exit(seed + 500, tier)
+    out = []
+    for b in bs:
+        b = dict(b)
+        b["walks"] = b["walks"][:6 if tier == "quick" else 40]
+        b.update(outcap=8, slow_us=20, sigcap=1)
+        out.append(b)
+    return out
 
 
 def random_exit(seed, tier):
